@@ -387,6 +387,32 @@ func CapacityOracle(props ...string) clustermc.Oracle {
 				// and the pods the scheduler binds; the reservation pods the binder will create for
 				// newly opened GPU groups are neither. Counted so the evidence shows how often the
 				// node ends one or more pod slots short for them.
+				nb := 0
+				for _, d := range t.Res.Decisions {
+					if d.Kind == "bind" && !d.Failed && d.Node == n.Name {
+						nb++
+					}
+				}
+				if nb == 1 && newGroups[n.Name] == 1 && !multiDev[n.Name] {
+					// the ONE bind of this cycle on the node opens ONE new shared device: the slot of that
+					// device's reservation pod is what checkMaxPodsWithGpuGroupReservation keeps free; without
+					// it the pods occupying the node after this very decision exceed its pod slots. (Several
+					// binds per cycle and multi-device requests stay observations, see below.)
+					// pods on this node that are terminating or were evicted this cycle (and the reservation pods
+					// of devices whose every sharer is): their slots are only releasing
+					rel := int64(0)
+					for _, p := range pre.Pods {
+						if p.Spec.NodeName == n.Name && releasing[p.Name] {
+							rel++
+						}
+					}
+					slot := "none"
+					if u.pods-rel+1 <= alloc(n, corev1.ResourcePods) {
+						slot = "held-by-terminating-pod" // the slot exists only if releasing slots count as free
+					}
+					out = append(out, engine.Violation{Property: "C01", Key: "C01/oversubscribed res=pods (reservation pod of the opened GPU group) slot=" + slot,
+						Message: fmt.Sprintf("node %s pods: occupying+bound=%d plus the reservation pod of the newly opened GPU group > allocatable=%d; members=%v (pods only releasing: %v)", n.Name, u.pods, alloc(n, corev1.ResourcePods), u.members, keys(releasing))})
+				}
 				if multiDev[n.Name] {
 					t.Stats["observed_reservation_pod_slot_shortfall_multi_device"]++
 				} else {
